@@ -91,6 +91,15 @@ CHECKS = {
    text="Decides: tainted_opaque<T> is a single T, layout-identical to tainted<T>, both trivially copyable/destructible; to_opaque/from_opaque return a bitwise copy typed as the sibling with identical T and sandbox type; "
         "each sandbox_X_cast performs exactly one conversion of the kind X_cast permits (clang cast kind, not spelling) on the argument's value and wraps it as tainted<T_Lhs,T_Sbx>.",
    note="bit patterns are not enumerated: a bitwise copy between layout-identical trivially-copyable types preserves every value", ref="3/C20"),
+ "C01": dict(level="exploration", technique="compiler-judged witness corpus (accept/reject + result-type oracle) exhaustive over a generated expression/statement grammar, plus a public-surface who-may-return table",
+   text="Every program of a generated grammar (wrapper kind x type x every binary operator with wrapped/plain/nullptr operands on either side, unary/postfix operators, [], ->, comma, ?:, casts, and all conversion contexts) is compiled "
+        "against the real headers; the oracle is independent of RLBox's implementation: IF it compiles its type must still be wrapped (bool only for tainted-pointer null tests; hint for comparisons touching sandbox memory), and forbidden "
+        "contexts must be rejected. The run is exhaustive over the grammar (3.7k programs quick, ~20k thorough with g++ as second judge). A who-may-return table over all instantiated wrapper members pins the named unwrappers.",
+   note="programs outside the grammar are not covered; trusted: clang 14 (and g++ 12 in the thorough tier) as judges", ref="3/C01"),
+ "C02": dict(level="exploration", technique="compiler-judged must-reject/must-accept corpus over entry shapes + dominating-check analysis of the two run-time checked entry points",
+   text="Every shape of the statement (raw pointers, raw function pointers, pointer arrays, foreign-sandbox wrappers into tainted/tainted_volatile/call arguments/callback results; malformed callback signatures; function-pointer type agreement) "
+        "is compiled and must be rejected, with must-accept controls for each well-formed shape; assign_raw_pointer (both forms) and UNSAFE_accept_pointer are shown to store only a value dominated by the membership abort check of the same value on the same sandbox.",
+   note="trusted: clang 14 as judge; backend membership predicate exact", ref="3/C02"),
 }
 NA_REASON = "check under construction in this revision (see DESIGN.md section 3 for the planned static rules); not claimed yet"
 
